@@ -136,6 +136,11 @@ func genFieldText(t *rapid.T, label string) string {
 		if s[0] == '#' {
 			s = "c" + s[1:]
 		}
+		if rapid.IntRange(0, 7).Draw(t, label+"-non-ascii-end") == 5 {
+			// text is bytes to the formats: a field may end in a letter whose UTF-8 encoding ends in a
+			// byte that, taken alone, is a Latin-1 space or control (0xA0, 0x85)
+			s += rapid.SampledFrom([]string{"à", "Å", "Ġ", "Ѕ", "é", "日", "voilà"}).Draw(t, label+"-non-ascii")
+		}
 		return s
 	}
 }
